@@ -26,6 +26,9 @@ def norm_msg(msg):
     m = msg.split('"', 1)[0] + ('"_"' if '"' in msg else "")
     # Err payloads that are structs (FromUtf8Error { bytes: [..] }, ParseIntError { kind: .. }): keep the type name only
     m = re.sub(r"(Err` value: \w+) \{.*$", r"\1", m)
+    # slice / char-boundary messages quote the offending text: `... of `<payload>``
+    m = re.sub(r" of `.*$", " of `_`", m, flags=re.S)
+    m = re.sub(r"inside '.*?' \(bytes", "inside '_' (bytes", m, flags=re.S)
     m = re.sub(r"'[^']*'", "'_'", m)
     m = re.sub(r"\d+", "N", m)
     m = re.sub(r"\s+", "_", m.strip())
